@@ -3,10 +3,12 @@
 # checks at a small scale against it and undoes it; prints one line per check that did not exit 0.
 cd "$(dirname "$0")/.."
 REPO=${1:-/repo}
+ONLY=${2:-}   # optional regex on the directory name, e.g. "^(8|9|1[0-3])-"
 ALL="C01:0.1 C02:0.1 C03:0.1 C04:0.1 C05:0.1 C06:0.1 C07:0.1 C08:0.1 C09:0.1 C10:0.1 C11:0.1 C12:0.1 C13:0.1 C16:0.2 C17:0.1 C18:0.3"
 for d in benign/*-*/; do
   pd=$d/patch.diff
   [ -f $pd ] || continue
+  if [ -n "$ONLY" ] && ! basename $d | grep -qE "$ONLY"; then continue; fi
   echo "== benign $(basename $d)"
   git -C $REPO apply $PWD/$pd || { echo "APPLY FAILED"; continue; }
   for c in $ALL; do
